@@ -118,10 +118,12 @@ def run_case(case: dict) -> list[tuple[str, str]]:
     if api == "rdflib":
         user = [b for b in user if b in src_ns]  # rdflib itself keeps one prefix per namespace
     fails += grouped_twice(api, cls, seq, bindings, preset, src_ns, expect_st, as_set)
-    for reader in ("flat", "to_graph", "grouped"):
+    for reader in ("flat", "to_graph", "grouped") + (("sink_parse",) if api == "generic" else
+                                                      ("graph_parse",)):
         try:
-            ev_on = read(on, reader)
-            ev_off = read(off, reader)
+            kw = {"quads": cls != "triple"} if reader == "graph_parse" else {}
+            ev_on = read(on, reader, **kw)
+            ev_off = read(off, reader, **kw)
         except Exception as e:  # noqa: BLE001
             fails.append(("read-raised", f"{reader} raised {type(e).__name__}: {e}"))
             continue
@@ -138,6 +140,13 @@ def run_case(case: dict) -> list[tuple[str, str]]:
                               f"flat parser delivers declarations {got_ns}, source bound {src_ns}"))
             if DR.ns_of(ev_off):
                 fails.append(("off-but-delivered", f"declarations delivered with option off"))
+        elif api == "generic":
+            # sinks filled by the other generic readers must hold the bindings as well
+            got_ns = [(p, i[1] if isinstance(i, tuple) else i) for p, i in DR.ns_of(ev_on)]
+            want = list(dict(src_ns).items()) if reader != "grouped" else src_ns
+            if got_ns != want and dict(got_ns) != dict(src_ns):
+                fails.append(("reader-declarations",
+                              f"{reader}: sinks hold bindings {got_ns}, source bound {src_ns}"))
     # --- sinks / graphs hold the bindings; re-serialisation reproduces the declarations
     try:
         if api == "generic":
